@@ -110,6 +110,11 @@ def run_case(kind, p):
         frame = impl.noise_frame(rng, shape, p["frame_kind"])
     peaks = np.asarray(p["peaks"], dtype=np.int64)
     t = np.asarray(p["t"])
+    # one frame buffer per frame shape, shared by all full-frame runs of this case (the documented way of using it)
+    fbufs = {}
+
+    def run_full(fr, pat_, pk, **kw):
+        return impl.run_full(fr, pat_, pk, frame_buf=fbufs.setdefault(fr.shape, np.zeros(fr.shape, np.float32)), **kw)
     # --- translation, crop based: embed in a larger canvas so that windows stay inside -------------
     big = np.zeros((shape[0] + 12, shape[1] + 12), np.float32) + float(frame.min())
     big2 = big.copy()
@@ -126,8 +131,8 @@ def run_case(kind, p):
     ok = np.all((peaks - c >= 0) & (peaks + c <= np.array(shape)) & (peaks + t - c >= 0)
                 & (peaks + t + c <= np.array(shape)), axis=1)
     if ok.any():
-        a = impl.run_full(frame, pattern, peaks[ok], b=p["b"])
-        b = impl.run_full(rolled, pattern, peaks[ok] + t, b=p["b"])
+        a = run_full(frame, pattern, peaks[ok], b=p["b"])
+        b = run_full(rolled, pattern, peaks[ok] + t, b=p["b"])
         b = (b[0] - t, b[1] - t.astype(np.float32), b[2], b[3])
         near_tie = np.abs(np.asarray(a[2]) - np.asarray(b[2])) > 1e-4 * np.maximum(1, np.abs(a[2]))
         msgs += same(a, b, f"full, cyclic shift {t.tolist()}", exact=False)
@@ -137,7 +142,7 @@ def run_case(kind, p):
             if np.any(np.abs(np.asarray(a[3])[d]) > 1e-3):
                 msgs.append(f"full, cyclic shift {t.tolist()}: centres differ {a[0][d[0]].tolist()} vs {b[0][d[0]].tolist()}")
     # --- transposition -----------------------------------------------------------------------------
-    for nm, runner in (("fast", impl.run_fast), ("full", impl.run_full)):
+    for nm, runner in (("fast", impl.run_fast), ("full", run_full)):
         a = runner(frame, pattern, peaks, b=p["b"])
         b = runner(np.ascontiguousarray(frame.T), pattern, peaks[:, ::-1].copy(), b=p["b"])
         b = (b[0][:, ::-1], b[1][:, ::-1], b[2], b[3])
@@ -150,7 +155,7 @@ def run_case(kind, p):
                 msgs.append(f"{nm}, transposed: centres differ {a[0][clear][i].tolist()} vs {b[0][clear][i].tolist()}")
     # --- offset --------------------------------------------------------------------------------------
     if p["frame_kind"] == "int":
-        for nm, runner in (("fast", impl.run_fast), ("full", impl.run_full)):
+        for nm, runner in (("fast", impl.run_fast), ("full", run_full)):
             a = runner(frame, pattern, peaks, b=p["b"])
             b = runner(frame + np.float32(p["offset"]), pattern, peaks, b=p["b"])
             if nm == "fast":
